@@ -1,0 +1,23 @@
+//go:build verif
+
+// Contracts for package action, property C17: fee handling of OLVM transactions (action/base.go ContractFeeHandling).
+// Comment-only file, read by /verif/govc.
+
+package action
+
+// ContractFeeHandling(ctx, signedTx, gasUsed, start): gasUsed is what the handler's ProcessDeliver reported in
+// Response.GasUsed (for OLVM: ExecutionResult.UsedGas of the state transition, or the markers SkipFee = -1 / WrongFee = 0).
+// The sender has already paid gasUsed * price inside the EVM (buyGas / refundGas); this function credits the same
+// product to the fee pool. The fee-pool key is fees.POOL_KEY = "00000000000000000000".
+//@ func ContractFeeHandling
+//@   safety C18
+//@   requires ctxFeeOK(ctx)                                                                                                  // C18.ctx
+//@   requires signedTx.Fee.Price.Currency == ctx.FeePool.feeOpt.FeeCurrency.Name && has(ctx.Currencies.nameMap, signedTx.Fee.Price.Currency) && signedTx.Fee.Price.Value >= 0   // C17.validated-facts
+//@   requires gasUsed >= -1                                                                                                  // C17.gas-used-range
+//@   modifies fee(ctx.FeePool)["00000000000000000000"], feeTotal(ctx.FeePool), vHas(ctx.FeePool.state), vVal(ctx.FeePool.state), gasfull(ctx.State.gc), gcons(ctx.State.gc), sgas(ctx.State)
+//@   ensures result0 && gasUsed != -1 ==> fee(ctx.FeePool)["00000000000000000000"] == old(fee(ctx.FeePool))["00000000000000000000"] + signedTx.Fee.Price.Value * gasUsed   // C17.fee-pool
+//@   ensures result0 && gasUsed != -1 ==> feeTotal(ctx.FeePool) == old(feeTotal(ctx.FeePool)) + signedTx.Fee.Price.Value * gasUsed                                        // C17.fee-pool
+//@   ensures result0 && gasUsed != -1 ==> result1.GasUsed == gasUsed && gasUsed > 0 && gasUsed <= signedTx.Fee.Gas                                                         // C17.fee-pool
+//@   ensures !result0 || gasUsed == -1 ==> fee(ctx.FeePool)["00000000000000000000"] == old(fee(ctx.FeePool))["00000000000000000000"] && feeTotal(ctx.FeePool) == old(feeTotal(ctx.FeePool))   // C17.fee-pool
+//@   ensures gasUsed == -1 ==> result0                                                                                       // C17.skip-fee
+//@   ensures gasUsed == 0 ==> !result0                                                                                       // C17.wrong-fee
